@@ -41,9 +41,11 @@ k("C16",
 k("C09",
   "The two IRI regular expressions are extracted from the current source, translated to SMT-LIB RegLan over an exact minterm alphabet and z3 5.1 decides, for "
   "strings of EVERY length, L(IRI_REGEX_SRC) = L(RFC 3987 IRI), L(IRELATIVE_REF_REGEX_SRC) = L(irelative-ref) and disjointness (5 obligations, all unsat = proof). "
-  "Any witness is replayed on the real validators and on Iri::as_base()/resolve() (no panic, result valid) before being reported.",
+  "Any witness is replayed on the real validators and on Iri::as_base()/resolve() (no panic, result valid) before being reported. In addition (native, finite, not solver-decided) "
+  "the four resolving entry points (Iri::resolve, IriRef::resolve, BaseIri::resolve, resolve_into) are compared with a transcription of RFC 3986 5.2 on (base, reference) pairs drawn from "
+  "fixed lists, the corpus and the solver witnesses; two deviations of the third-party resolver are recorded KNOWN-FINDINGs.",
   "Trusted: z3's regex theory (bounded cross-check on z3 4.8.12/cvc5), my regex-syntax parser (validated against the real regex crate every run), the RFC transcription. "
-  "Outside: equality of resolve() with RFC 3986 5.2 (oxiri).",
+  "Outside: equality of resolve() with RFC 3986 5.2 for all pairs (oxiri is not encoded; only the finite native differential).",
   "regex -> SMT-LIB RegLan equivalence/inclusion decided by z3 (unbounded), witnesses replayed natively",
   "DESIGN.md 4 C09", level="proof")
 
@@ -59,7 +61,8 @@ k("C04",
 
 k("C03",
   "Split claim. (a) CBMC proves, for every valid UTF-8 string of <=3 (thorough 4) bytes, that quoted_string's output decodes back to the input under a transcription of the "
-  "W3C STRING_LITERAL_QUOTE grammar and contains no raw quote/CR/LF. (b) z3 proves for strings of every length that valid blank node labels and absolute IRIs are "
+  "W3C STRING_LITERAL_QUOTE grammar and contains no raw quote/CR/LF; and that write_term escapes and frames a literal of one symbolic ASCII byte identically for a symbolic datatype among "
+  "xsd:string/integer/decimal/double/boolean/non-XSD (ill-typed literals included). (b) z3 proves for strings of every length that valid blank node labels and absolute IRIs are "
   "grammatical where they are copied verbatim and that every BCP47 tag is constructible. (c) the parser half (Rio) is exercised only in the native replay of a corpus and of witnesses.",
   "Trusted: Kani/CBMC, z3, grammar transcriptions. Outside: that Rio inverts the escaping beyond the corpus; strings longer than the bound; non-BCP47 tags accepted by LANG_TAG.",
   "Kani/CBMC harness with decoder oracle + regex-language inclusion in z3 + native round-trip replay",
@@ -78,7 +81,8 @@ k("C01",
   "Bounded model checking of the real Generic{Fast,Light}{Dataset,Graph} code (insert/remove with all secondary indexes, the 16-way/8-way index selection with its "
   "range bounds and permutation closures, the five matching iterators with cached match flags, the shipped matcher types): for every history of 2 (thorough: 3 on graphs) "
   "symbolic insert/remove operations and every value of the pattern constants, each mutation returns 'the set really changed' and each pattern query returns exactly the "
-  "matching members, each once. One harness per pattern shape / matcher kind; quick runs 20 of them, thorough all 70.",
+  "matching members, each once. One harness per pattern shape / matcher kind; quick runs 30 of them, thorough all 70. Matcher-contract harnesses decide every shipped matcher type "
+  "(constant, multi-valued, Not, TermKind over all six kinds, datatype, language tag up to ASCII case, (S,P,O) quoted-triple tuples, graph-name forms) against reference predicates.",
   "Trusted: Kani/CBMC; ordered-set model instead of std BTreeSet; identity term index (VTI) instead of SimpleTermIndex. Outside: quads()/triples() (compiler crash), "
   "histories beyond the bound, literal/quoted-triple terms in stores, index-width exhaustion, foreign Vec/HashSet impls.",
   "Kani proof harnesses (symbolic histories + pattern constants, list model oracle) decided by CBMC/SAT; counterexamples replayed natively on the real BTreeSet",
